@@ -160,7 +160,7 @@ def binding_family(rng, full):
         if not full:
             rng.shuffle(good)
             rng.shuffle(bad)
-            good, bad = good[:24], bad[:6]
+            good, bad = good[:20], bad[:6]
         show = []
         for p in ps:
             show += [dict(k="lit", t="<" + p["n"]), dict(k="val", v=p["n"], vk=p["kind"])]
@@ -267,7 +267,7 @@ def check(run):
     maxraise = 10 if not thorough else 14
     # ---- 1. systematic family (all raise points)
     fam = systematic(None)
-    rc.check_batch(run, fam, 16, "systematic", coverage=True)
+    rc.check_batch(run, fam, 12, "systematic", coverage=True)
     run.extra["systematic_programs"] = len(fam)
     # ---- 1b. argument binding: every signature x call shapes x call routes
     bind = binding_family(run.rng, thorough)
